@@ -221,12 +221,12 @@ var fixedSets = []func() *routeSet{
 	func() *routeSet {
 		return &routeSet{kind: "witness", methods: []string{"GET"},
 			entries: []entry{{"GET", "/a/b/c"}, {"GET", "/a/b/{x}"}, {"GET", "/a/b/*{y}"}, {"GET", "/a/{p}"}, {"GET", "/a/*{q}"}},
-			fixed: [][3]string{{"GET", "", "/a/b/c"}, {"GET", "", "/a/b/zz"}, {"GET", "", "/a/b/zz/t"}, {"GET", "", "/a/zz/yy"}, {"GET", "", "/a/zz"}}}
+			fixed:   [][3]string{{"GET", "", "/a/b/c"}, {"GET", "", "/a/b/zz"}, {"GET", "", "/a/b/zz/t"}, {"GET", "", "/a/zz/yy"}, {"GET", "", "/a/zz"}}}
 	},
 	func() *routeSet {
 		return &routeSet{kind: "witness", methods: []string{"GET"}, ignoreTS: true,
 			entries: []entry{{"GET", "/{a}/x/"}, {"GET", "/u/{b}/{c}"}, {"GET", "h.{d}/*{w}/e/"}, {"GET", "/s/*{v}/t/{k}/"}},
-			fixed: [][3]string{{"GET", "", "/v/x"}, {"GET", "", "/u/1/2/"}, {"GET", "h.q", "/r/s/e"}, {"GET", "", "/s/1/2/t/3"}, {"GET", "", "/v/x/"}}}
+			fixed:   [][3]string{{"GET", "", "/v/x"}, {"GET", "", "/u/1/2/"}, {"GET", "h.q", "/r/s/e"}, {"GET", "", "/s/1/2/t/3"}, {"GET", "", "/v/x/"}}}
 	},
 }
 
@@ -388,7 +388,7 @@ func main() {
 			if len(st.Samples) < 8 && matched && len(lo.Params) > 1 && rnd.Pct(2) {
 				st.Samples = append(st.Samples, human)
 			}
-				}
+		}
 		for qi := 0; qi < nreq; qi++ {
 			base := hx.Pick(rnd, ok)
 			host, path := rt.SplitPattern(rt.Instantiate(rnd, base.pat, false))
